@@ -75,6 +75,22 @@ def oracle_eval(o, rc, out, err):
         s = out.decode("utf-8", "replace")
         bad = rc == 0 and any(w in s for w in ("inf", "NaN", "nan"))
         return bad, "stdout=%r exit=%d" % (s[:80], rc)
+    if kind in ("python_literal_equals", "toml_value_equals"):
+        if rc not in (0, 1, 2) or b"panicked at" in err:
+            return True, "crash exit=%d" % rc
+        if rc != 0:
+            return True, "exit=%d stderr=%s" % (rc, err.decode("utf-8", "replace")[:300])
+        try:
+            doc = json.loads(out.decode("utf-8"))
+            if kind == "python_literal_equals":
+                import ast
+                got = ast.literal_eval(doc)
+            else:
+                import tomllib
+                got = tomllib.loads(doc)["a"]
+        except Exception as e:
+            return True, "target-language parser rejects the document %r: %s" % (out[:80], e)
+        return got != o["expected"], "got %r expected %r" % (got, o["expected"])
     if kind == "error_expected":
         bad = rc == 0
         return bad, "exit=%d stdout=%r" % (rc, out[:80])
@@ -158,3 +174,27 @@ def _utf8_string(vals, v):
         cases.append({"source": src.decode("latin-1"), "source_latin1": True,
                       "oracle": {"oracle": "stdout_json_equals", "expected": expected}})
     return cases
+
+
+def _char_case(vals, src_tpl, oracle):
+    cp = u(vals, 0)
+    if cp > 0x10FFFF or 0xD800 <= cp <= 0xDFFF:
+        return []
+    return [{"source": src_tpl % cp, "oracle": {"oracle": oracle, "expected": chr(cp)}}]
+
+
+@adapter("escape_json_char")
+def _escape_json_char(vals, v):
+    return (_char_case(vals, "std.char(%d)", "stdout_json_equals")
+            + _char_case(vals, "std.parseJson(std.escapeStringJson(std.char(%d)))", "stdout_json_equals")
+            + _char_case(vals, "std.parseJson(std.manifestJsonMinified(std.char(%d)))", "stdout_json_equals"))
+
+
+@adapter("escape_python_char")
+def _escape_python_char(vals, v):
+    return _char_case(vals, "std.manifestPython(std.char(%d))", "python_literal_equals")
+
+
+@adapter("escape_toml_char")
+def _escape_toml_char(vals, v):
+    return _char_case(vals, 'std.manifestTomlEx({a: std.char(%d)}, "")', "toml_value_equals")
